@@ -168,6 +168,111 @@ def explore(task):
     return res
 
 
+
+# ----------------------------------------------------------------------------- Colang 2.x conversations
+V2_SRC = """
+import core
+import llm
+
+flow main
+  activate llm continuation
+  user said something
+  bot express thanks
+  bot say "DONE"
+  user said something
+  bot express goodbye
+"""
+
+
+_V2_CUR = ["?", 0]     # (conversation, turn) of the request being served: the scripted LLM answers per request
+
+
+def v2_llm_fn(task, prompt, i):
+    """The prompt that asks for the body of an undefined flow contains only the flow name, so what the LLM
+    writes is modelled per request (conversation, turn) - the same answers in the shared and in the isolated
+    run.  A conversation whose name is in WAITERS gets a body that goes on waiting, i.e. a generated flow that is
+    still alive when the turn ends."""
+    conv, turn = _V2_CUR
+    lines = prompt[-200:].splitlines()
+    if lines and "flow bot express" in lines[-1]:
+        body = f'  bot say "GEN-{conv}{turn}"'
+        if conv in ("A", "E", "F"):
+            body += '\n  user said "never mind"'
+        return body
+    if "user intent" in prompt[-400:].lower() and "bot intent" in prompt[-200:].lower():
+        return f'user intent: user asked something\nbot intent: bot inform something\nbot action: bot say "CONT-{conv}{turn}"'
+    if "user intent:" in prompt[-60:]:
+        return "user asked something"
+    return f'bot say "R-{conv}{turn}"'
+
+
+def v2_conv_sets():
+    return [
+        ("generated-flow-still-alive-at-turn-end", [("A", ["UA hello", "UA again"]), ("B", ["UB hello"])]),
+        ("two-conversations-generate-the-same-undefined-flow", [("C", ["UC hello", "UC more"]), ("D", ["UD hello"])]),
+        ("waiting-flows-of-two-conversations", [("E", ["UE one"]), ("F", ["UF two", "UF three"])]),
+    ]
+
+
+def v2_request(world, state, text, who=("?", 0)):
+    _V2_CUR[0], _V2_CUR[1] = who
+    turn = rw.run_turn(world, [{"role": "user", "content": text}], {}, v2_llm_fn, state=state)
+    new_state = turn.reply.state if (turn.reply is not None and hasattr(turn.reply, "state")) else state
+    obs = (turn.text, tuple(c["prompt"] for c in turn.llm_calls), repr(turn.exc) if turn.exc else None)
+    return new_state, obs
+
+
+def explore_v2(set_index):
+    res = {"requests": 0, "interleavings": 0, "conversation_sets": 1, "v2_requests": 0, "viol": []}
+    name, convs = v2_conv_sets()[set_index]
+    mk = lambda: World(V2_SRC, 'colang_version: "2.x"\n')  # noqa: E731
+    ref = {}
+    for cname, texts in convs:
+        w, st, out = mk(), {}, []
+        for k, t in enumerate(texts):
+            st, obs = v2_request(w, st, t, (cname, k))
+            out.append(obs)
+        ref[cname] = out
+    seq = []
+    for ci, (cname, texts) in enumerate(convs):
+        seq.extend([ci] * len(texts))
+    for order in sorted(set(itertools.permutations(seq))):
+        res["interleavings"] += 1
+        w = mk()
+        states = {c: {} for c, _ in convs}
+        pos = {c: 0 for c, _ in convs}
+        trail = []
+        for ci in order:
+            cname, texts = convs[ci]
+            k = pos[cname]
+            states[cname], obs = v2_request(w, states[cname], texts[k], (cname, k))
+            pos[cname] += 1
+            res["requests"] += 1
+            res["v2_requests"] += 1
+            trail.append(f"{cname}{k}")
+            exp = ref[cname][k]
+            info = {"engine": "E3-world", "prop": "C15", "v2": True, "set": name, "set_index": set_index, "order": list(order)}
+            if obs[2] is not None or exp[2] is not None:
+                res["viol"].append((f"generate-raised:v2:{name}", f"request {cname}{k}: shared {obs[2]} / isolated {exp[2]}", info))
+                break
+            if obs != exp:
+                what = []
+                if obs[0] != exp[0]:
+                    what.append(f"reply {obs[0]!r} != isolated {exp[0]!r}")
+                if obs[1] != exp[1]:
+                    what.append(f"LLM calls differ: shared {len(obs[1])} call(s), isolated {len(exp[1])}")
+                res["viol"].append((f"cross-conversation-influence:v2:{name}",
+                                    f"[2.x] request {cname}{k} after {trail[:-1]}: " + "; ".join(what), info))
+                break
+    seen, uniq = set(), []
+    for v in res["viol"]:
+        if v[0] not in seen:
+            seen.add(v[0])
+            uniq.append(v)
+    res["viol"] = uniq
+    return res
+
+
 def same_task_part(_):
     """Requests awaited one after the other from the SAME asyncio task (a worker loop): per-request
     state kept in context variables (generation options, llm stats, streaming handler, explain info)
@@ -244,6 +349,12 @@ def run(rep, tier):
                 agg[k] = agg.get(k, 0) + v
         for sig, what, info in r["viol"]:
             rep.violation(sig, what, info)
+    for r in par.pmap(explore_v2, list(range(len(v2_conv_sets())))):
+        for k, v in r.items():
+            if isinstance(v, int):
+                agg[k] = agg.get(k, 0) + v
+        for sig, what, info in r["viol"]:
+            rep.violation(sig, what, info)
     for r in par.pmap(same_task_part, [0]):
         for k, v in r.items():
             if isinstance(v, int):
@@ -283,6 +394,29 @@ def replay(rp):
     if rp.get("engine") == "E2-aio":
         from vf.props import c15_conc
         return c15_conc.replay(rp)
+    if rp.get("v2"):
+        name, convs = v2_conv_sets()[rp["set_index"]]
+        mk = lambda: World(V2_SRC, 'colang_version: "2.x"\n')  # noqa: E731
+        ref = {}
+        for cname, texts in convs:
+            w, st, out = mk(), {}, []
+            for t in texts:
+                st, obs = v2_request(w, st, t, (cname, len(out)))
+                out.append(obs)
+            ref[cname] = out
+        w = mk()
+        states = {c: {} for c, _ in convs}
+        pos = {c: 0 for c, _ in convs}
+        for ci in rp["order"]:
+            cname, texts = convs[ci]
+            k = pos[cname]
+            states[cname], obs = v2_request(w, states[cname], texts[k], (cname, k))
+            pos[cname] += 1
+            print(f"{cname}{k} {texts[k]!r}: reply {obs[0]!r} ({len(obs[1])} LLM calls) | alone {ref[cname][k][0]!r} ({len(ref[cname][k][1])} LLM calls) same={obs == ref[cname][k]}")
+            if obs != ref[cname][k]:
+                break
+        print(rp["what"])
+        return 0
     dialog = rp["dialog"]
     name, convs = conv_sets(dialog)[rp["set_index"]]
     ref = {c.name: isolated(dialog, c) for c in convs}
